@@ -1148,6 +1148,23 @@ theorem findIndex_total (f : Frag) (hf : f.WF) (pos : Nat) (round : Int) (hr : r
     (hp : pos ≤ fsize f.content) : ∃ i o, f.findIndex pos round = .ok (i, o) :=
   Frag.findIndex_total f hf pos round hr hp
 
+/-- **`find_index` with either rounding, strictly inside**: with `k` the first child whose end reaches `pos` (it
+    exists), the answer is index `k + 1` / that child's end when `pos` is that end or `round > 0`, and index `k` / the
+    child's start otherwise -/
+theorem findIndex_spec (f : Frag) (hf : f.WF) (pos : Nat) (round : Int) (h0 : 0 < pos) (h1 : pos < fsize f.content) :
+    ∃ k n, f.content[k]? = some n ∧ fsize (f.content.take k) < pos ∧ pos ≤ fsize (f.content.take k) + n.size ∧
+      f.findIndex pos round =
+        .ok (if pos = fsize (f.content.take k) + n.size ∨ round > 0
+          then (k + 1, ((fsize (f.content.take k) + n.size : Nat) : Int))
+          else (k, ((fsize (f.content.take k) : Nat) : Int))) :=
+  Frag.findIndex_spec f hf pos round h0 h1
+
+/-- … and at the two ends, whatever the rounding (and whatever the stored size, for position 0) -/
+theorem findIndex_ends (f : Frag) (round : Int) :
+    f.findIndex 0 round = .ok (0, 0) ∧ (f.size ≠ 0 → f.findIndex f.size round = .ok (f.content.length, f.size)) := by
+  unfold Frag.findIndex
+  exact ⟨by simp, fun h => by rw [if_neg h, if_pos rfl]⟩
+
 /-- a negative position is refused with `ValueError` unless it happens to equal a (stale, negative) stored size -/
 theorem findIndex_negative (f : Frag) (pos round : Int) (h : pos < 0) (hs : pos ≠ f.size) :
     f.findIndex pos round = .error .valueError := by
